@@ -486,12 +486,25 @@ pub fn gen_random(seed: u64, idx: u64) -> Plan {
         conns.push(c);
     }
     let nb = r.usize_in(1, 6);
-    if tls {
+    if tls || r.chance(1, 2) {
         // a healthy client that arrives late, while earlier handshakes may
-        // still be stalled
+        // still be stalled or silent connections still linger
         let mut c = healthy_conn(&mut r, &mut nonce, 10_050, span);
-        c.kind = ConnKind::Tls;
+        if tls {
+            c.kind = ConnKind::Tls;
+        }
         c.start_ms = span + r.range(1_000, 30_000);
+        conns.push(c);
+    }
+    if r.chance(1, 3) {
+        // a connection that is opened and then simply sits there, without a
+        // byte, for minutes (a port scanner, a health checker gone quiet)
+        let mut c = blank_conn(12_500);
+        c.start_ms = r.range(0, span);
+        c.steps.push(Step::Sleep { ms: r.range(100_000, 300_000) });
+        c.steps.push(Step::Close);
+        c.reqs.push(hostile("silent_connection", false, nonce));
+        nonce += 1;
         conns.push(c);
     }
     for i in 0..nb {
